@@ -109,11 +109,25 @@ theorem new_blade_float {p d : F} (hp : Fin p) (hd : Fin d) (hpb : |val p| ≤ 1
     (Angle.new p d).blade = n :=
   Angle.new_blade_float hp hd hpb hdl hq hp0 hd0 n hlo hhi
 
+/-- (B) **a negative `p/d` in rounded arithmetic** (general path — any divisor, any sign combination with `p/d < 0`): the result is canonical
+    and its float total is `X = p·π_f/d` plus a whole number `n` of turns, to within the `1e-10` snap plus `(14·|X| + 46)·2⁻⁵³`: the same
+    direction as `X` modulo `2π_f`, realised as a forward rotation (the total of a canonical angle is non-negative) — through the raw total in
+    either order of operations, `ceil(|X|/2π_f)`, the rounded shift `4n·(π_f/2)`, the rounded sum, the clamp at zero, the exact `fmod` and the
+    snap.  The exact fast path (`d = 2`, integral `p < 0`) lands on blade `p + 4⌈(3−p)/4⌉ ∈ {3,…,6}` with remainder `0.0` (S-lemma
+    `Angle.new_negInt_two`).  "At most one turn unless `2p/d` is an integer" is proved in exact arithmetic (`negative_forward_real`). -/
+theorem new_negative_float {p d : F} (hp : Fin p) (hd : Fin d) (hpb : |val p| ≤ 10 ^ 200)
+    (hdl : 1 / 10 ^ 200 ≤ |val d|) (hq : |val p * piV F / val d| ≤ 2 ^ 42) (hneg : val p * piV F / val d < 0)
+    (hfast : (feq d two && feq (FloatLike.fract p) zero) = false) :
+    (Angle.new p d).Inv ∧
+    ∃ n : ℕ, |Angle.Tq (Angle.new p d) - (val p * piV F / val d + (n : ℝ) * (4 * val (qp : F)))|
+      < val (e10 : F) + (14 * |val p * piV F / val d| + 46) * (1 / 2 ^ 53) + 1 / 10 ^ 300 :=
+  Angle.new_total_neg_float hp hd hpb hdl hq hneg hfast
+
 /-- (B) **negative radians in rounded arithmetic** (`Angle::new(x, PI)`, `-2^41 ≤ x < 0`, the form every internal re-encoding
     uses): the result is canonical and its float total is `x` plus a whole number `n` of turns, to within the snap plus
-    `(14·|x| + 46)·2⁻⁵³` — the same direction modulo `2π_f`, as a forward rotation.  PARTIAL w.r.t. the property's "any divisor":
-    for a general negative `p/d` the forward-rotation law is proved in exact arithmetic (`negative_forward_real`). -/
-theorem new_radians_negative_float_partial {x : F} (hx : Fin x) (hx0 : val x < 0) (hb : -(2 ^ 41) ≤ val x) :
+    `(14·|x| + 46)·2⁻⁵³` — the same direction modulo `2π_f`, as a forward rotation.  The divisor-`PI` instance of
+    `new_negative_float`, kept because every internal re-encoding has this form. -/
+theorem new_radians_negative_float {x : F} (hx : Fin x) (hx0 : val x < 0) (hb : -(2 ^ 41) ≤ val x) :
     (Angle.new x (FloatLike.pi : F)).Inv ∧
     ∃ n : ℕ, |Angle.Tq (Angle.new x (FloatLike.pi : F)) - (val x + (n : ℝ) * (4 * val (qp : F)))|
       < val (e10 : F) + (14 * |val x| + 46) * (1 / 2 ^ 53) + 1 / 10 ^ 300 :=
